@@ -734,9 +734,12 @@ package larking
 //@ func (*Mux).serveGRPC serves C15 C08 C09 C12 C05 C14 partial ghost count post pre panic
 //@   requires m != nil && w != nil && r != nil
 //@   witness verifWitnessGRPCStatusDetails for panic[
+// (after the flush handler metadata goes out through setOutgoingTrailer, which
+// prefixes every key with http.TrailerPrefix; no plain-header write remains)
 //@   count flushes `flusher.Flush(`
-//@   assert atcall `setOutgoingHeader(` [metadata-becomes-plain-headers-only-before-the-flush C14] flushes == 0
-//@   witness verifWitnessGRPCTrailer for metadata-becomes-plain-headers-only-before-the-flush
+//@   callsites `setOutgoingHeader(` 0
+//@   assert atcall `setOutgoingTrailer(` [trailer-metadata-is-written-after-the-flush-as-trailers C14] flushes == 1
+//@   witness verifWitnessGRPCTrailer for trailer-metadata
 //@   count hcalls `hd.handler(`
 //@   count refusals `http.Error(`
 //@   count loads `m.loadState(`
